@@ -317,6 +317,8 @@ def main():
                     for fn in ("replace", "join", "format", "list"):
                         if "|" + fn in src_i:
                             hist["A_uses_" + fn] += 1
+                    if re.search(r"{% for c\d+ in ", src_i):
+                        hist["A_loops_over_a_string"] += 1
                     if "&lt;" in out or "&gt;" in out or "&quot;" in out or "&#x27;" in out:
                         hist["A_output_has_escaped_metachar"] += 1
                         nontriv.add(("A", reqs[i]["templates"][progs[i][2]], json.dumps(progs[i][1], sort_keys=True)))
@@ -367,7 +369,7 @@ def main():
 
     log('[C02] part A done %.1fs' % (time.time() - chk.t0))
     # ---------------- part A': wild contexts, engine only ----------------
-    nW = 10000 if chk.thorough else 1500
+    nW = 10000 if chk.thorough else 1000
     wprogs = []
     for j in range(nW):
         g = make_gen(rng, {"autoescape": False, "strings_with_meta": True, "include": j % 4 == 0}, 2 + rng.below(3), engine_only=True)
@@ -399,7 +401,7 @@ def main():
 
     log('[C02] part W done %.1fs' % (time.time() - chk.t0))
     # ---------------- part B: no double escape ----------------
-    nB = 1500 if chk.thorough else 300
+    nB = 1500 if chk.thorough else 200
     rt_reqs, rt_meta = [], []
     for j in range(nB):
         g = make_gen(rng, {"autoescape": False, "strings_with_meta": True, "break": False}, 1 + rng.below(3), engine_only=True)
@@ -524,7 +526,7 @@ def main():
         for g in names:
             for a in pair_args:
                 pairs.append(((f1, g), "{{ %s|%s%s }}" % (inner, g, a)))
-    cap = 400000 if chk.thorough else 40000
+    cap = 400000 if chk.thorough else 30000
     if len(pairs) > cap:
         step = len(pairs) / float(cap)
         pairs = [pairs[int(i * step)] for i in range(cap)]
